@@ -32,6 +32,7 @@ type c20Prog struct {
 	FileDep bool `json:"filedep"`
 	NoMatch bool `json:"nomatch,omitempty"` // the first task also has a glob dependency that matches nothing
 	Big     int  `json:"big,omitempty"`     // every task has a further command that writes this many KiB to each stream
+	Bg      bool `json:"bg,omitempty"`      // every task: a command that leaves a background job writing later, then a slower command
 	Long    bool `json:"long,omitempty"`    // docstrings and variable values are longer than a terminal line; listings also go through a pseudo terminal
 }
 
@@ -40,7 +41,18 @@ func (p c20Prog) ncmds() int {
 	if p.Big > 0 {
 		return p.NCmds + 1
 	}
+	if p.Bg {
+		return p.NCmds + 2
+	}
 	return p.NCmds
+}
+
+// nvars: declared variables; with two plain ones there is a third whose exec reads a variable only .env provides
+func (p c20Prog) nvars() int {
+	if p.NVars == 2 {
+		return 3
+	}
+	return p.NVars
 }
 
 // c20Big: n KiB of numbered lines, different per stream
@@ -53,13 +65,16 @@ func c20Big(kib int, stream string) string {
 }
 
 func (p c20Prog) varVal(i int) string {
+	if i == 2 {
+		return "from-staging"
+	}
 	if p.Long {
 		return c20VarVals[i] + " " + strings.Repeat("and a value that goes on ", 5) + "end" + fmt.Sprint(i)
 	}
 	return c20VarVals[i]
 }
 
-var c20VarNames = []string{"VA", "ZED"}
+var c20VarNames = []string{"VA", "ZED", "DOTD"}
 var c20VarVals = []string{"valone", "two words"}
 
 func (p c20Prog) names() []string {
@@ -86,6 +101,14 @@ func (p c20Prog) cmd(t string, k int) (src, expanded, stdout, stderr string) {
 	if p.NVars > 0 {
 		v, vv = "_{{.VA}}", "_"+p.varVal(0)
 	}
+	if p.Bg && k == p.NCmds+1 {
+		src = fmt.Sprintf("echo %s:%d >> \"$VLOG\"; sleep 0.3 && echo late_%s && echo late_%s >&2 &", t, k, t, t)
+		return src, src, "*", "*" // whatever of the late output made it: not compared
+	}
+	if p.Bg && k == p.NCmds+2 {
+		src = fmt.Sprintf("sleep 1 && echo done_%s && echo %s:%d >> \"$VLOG\"", t, t, k)
+		return src, src, "done_" + t + "\n", ""
+	}
 	if k == p.NCmds+1 && p.Big > 0 {
 		src = fmt.Sprintf("echo before_%s; cat big.out; echo after_%s; cat big.err >&2; echo %s:%d >> \"$VLOG\"", t, t, t, k)
 		return src, src, "before_" + t + "\n" + c20Big(p.Big, "out") + "after_" + t + "\n", c20Big(p.Big, "err")
@@ -99,7 +122,11 @@ func (p c20Prog) cmd(t string, k int) (src, expanded, stdout, stderr string) {
 
 func (p c20Prog) text() string {
 	var sb strings.Builder
-	for i := 0; i < p.NVars; i++ {
+	for i := 0; i < p.nvars(); i++ {
+		if i == 2 {
+			fmt.Fprintf(&sb, "%s := exec(\"echo from-$DOTV\")\n", c20VarNames[i])
+			continue
+		}
 		fmt.Fprintf(&sb, "%s := \"%s\"\n", c20VarNames[i], p.varVal(i))
 	}
 	sb.WriteString("\n")
@@ -156,6 +183,9 @@ func c20Progs(tier string) []c20Prog {
 									for _, big := range []int{20, 300} {
 										out = append(out, c20Prog{NTasks: nt, Default: def, NCmds: nc, Chain: chain, FileDep: fd, Big: big})
 									}
+								}
+								if nt <= 2 && nc == 0 && nv == 0 && fd && !docs && !def {
+									out = append(out, c20Prog{NTasks: nt, Chain: chain, FileDep: fd, Bg: true})
 								}
 								if docs && nc == 1 && fd && (nt <= 3 || tier == "thorough") {
 									// long docstrings and values, listed on terminals of several widths
@@ -288,6 +318,9 @@ func (p c20Prog) checkJSON(stdout string, req []string, log []string, expectSkip
 				}
 			}
 			_, exp, so, se := p.cmd(name, k+1)
+			if so == "*" {
+				continue
+			}
 			wantStrs := []string{exp, so, se}
 			sort.Strings(strs)
 			sort.Strings(wantStrs)
@@ -374,7 +407,7 @@ func (p c20Prog) checkVars(stdout string) []c20Obs {
 	var got []string
 	for _, l := range strings.Split(stdout, "\n") {
 		f := strings.Fields(l)
-		for i := 0; i < p.NVars; i++ {
+		for i := 0; i < p.nvars(); i++ {
 			if len(f) > 0 && f[0] == c20VarNames[i] {
 				got = append(got, f[0])
 				if v := strings.Join(f[1:], " "); v != p.varVal(i) {
@@ -383,7 +416,7 @@ func (p c20Prog) checkVars(stdout string) []c20Obs {
 			}
 		}
 	}
-	wantV := append([]string{}, c20VarNames[:p.NVars]...)
+	wantV := append([]string{}, c20VarNames[:p.nvars()]...)
 	sort.Strings(wantV)
 	if strings.Join(got, ",") != strings.Join(wantV, ",") {
 		obs = append(obs, c20Obs{"vars-list", fmt.Sprintf("--vars lists %v, expected each variable once sorted %v: %q", got, wantV, clip(stdout))})
@@ -398,6 +431,7 @@ func c20Run(root string, p c20Prog) (obs []c20Obs, inv int) {
 	ctl := t.Mkdir("ctl")
 	home := filepath.Join(root, "home")
 	t.File("home/w/proj/spokfile", p.text())
+	t.File("home/w/proj/.env", "DOTV=staging\n")
 	for _, n := range p.names() {
 		t.File("home/w/proj/"+n+".txt", "v0\n")
 	}
